@@ -11,7 +11,7 @@ NAMES = ['/etc/passwd', '/etc/hosts.d/a', '/home/alice/.config/app/settings.json
          '/tmp/user/1000/f', '/run/udev/data/c1:3', '/home/alice/My Documents/a b.txt', '/home/alice/a=b#c,d',
          '/opt/X/Y', '/usr/share/icons/', '/etc/resolv.conf', '/etc/console-setup/x', '/dev/tty1', '/dev/dri/card0',
          '/home/alice/.local/share/app/', '/home/alice/café', '/var/lib/dpkg/status', '/etc/machine-id',
-         '/sys/dev/block/8:16/uevent', '/tmp/x:1', '/srv/share/DOMAIN\\alice/my file', '/tmp/tab\there']
+         '/sys/dev/block/8:16/uevent', '/tmp/x:1', '/srv/app/state/worker.pid=4242', '/run/lock/old.peer_pid=16', '/srv/share/DOMAIN\\alice/my file', '/tmp/tab\there']
 PROFILES = ['foo', 'foo//bar', 'bar', 'foobar', 'firefox', 'firefox//null-/usr/bin/lsb_release', 'dbus-daemon', 'a b', 'xdg-open']
 OPS_FILE = [('open', 'r'), ('open', 'w'), ('open', 'rw'), ('mknod', 'c'), ('unlink', 'd'), ('truncate', 'w'), ('exec', 'x'),
             ('file_mmap', 'rm'), ('file_lock', 'k'), ('link', 'l'), ('rename_src', 'rw'), ('mkdir', 'c'), ('chmod', 'w'),
@@ -61,7 +61,7 @@ def gen_event(rng, noise=False):
     st = rng.choice(['DENIED', 'ALLOWED', 'AUDIT'])
     prof = rng.choice(PROFILES)
     pid = str(rng.randint(2, 99999))
-    comm = rng.choice(['cat', 'bash', 'my prog', 'a=b', 'x#y'])
+    comm = rng.choice(['cat', 'bash', 'my prog', 'a=b', 'x#y', '--pid=977'])
     k = rng.random()
     f = [('apparmor', st, None)]
     if noise:
